@@ -1,4 +1,5 @@
 import AndaVerif.Model.KmlGuard
+import AndaVerif.Model.KmlExec
 import AndaVerif.Drv.Util
 /-
 Driver of the C16 model (`Model/KmlGuard`). One request per line, prefix notation, space separated.
@@ -7,6 +8,7 @@ Driver of the C16 model (`Model/KmlGuard`). One request per line, prefix notatio
   export WList                                   -> ok | err:syntax:<tag>
   assert <seq> OptStr PropM Asg OptERef          -> ok <n> Clause*n | none:<reason>   (`assert_statement`)
   ensure OptStr PropM <0|1>                      -> ok Clause | none:<reason>          (`ensure_proposition`)
+  exec <Kind> <UpdateAction variant> <n> (Str <str|arr|other>)*n -> ok:<plane> | err:<code>   (`apply_action`, run time)
   kind ERef OptWhere                             -> kinds:<k,…>|kinds:-   (the kinds `guard_update` guards the target for)
 
 Strings: `=text` (text over [A-Za-z0-9_#.-], non-empty) or `~hex` (anything else; kept opaque —
@@ -603,6 +605,40 @@ def handle (line : String) : String :=
       | .ok c => "ok " ++ showClause c
       | .error e => "none:" ++ tupleErrTag e
     | none => "bad-op"
+  | "exec" :: kind :: variant :: r =>
+    let k : Option KmlExec.ElemKind :=
+      match kind with
+      | "Concept" => some .concept | "Proposition" => some .proposition | "Assertion" => some .assertion
+      | "Evidence" => some .evidence | "Activity" => some .activity | _ => none
+    let fields : Option (List (String × KmlExec.JsonShape)) := do
+      let (fs, r) ← pCounted (fun r => do
+        let (f, r) ← pStr r
+        match r with
+        | "str" :: r => pure ((f, KmlExec.JsonShape.str), r)
+        | "arr" :: r => pure ((f, KmlExec.JsonShape.arr), r)
+        | "other" :: r => pure ((f, KmlExec.JsonShape.other), r)
+        | _ => none) r
+      if r ≠ [] then none
+      pure fs
+    let a : Option KmlExec.Action :=
+      match variant, fields with
+      | "SetFields", some fs => some (.setFields fs)
+      | "SetAttributes", some [] => some .setAttributes
+      | "UnsetAttributes", some [] => some .unsetAttributes
+      | "SetFacet", some [] => some .setFacet
+      | "UnsetFacet", some [] => some .unsetFacet
+      | "SetStructural", some [] => some .setStructural
+      | "UnsetStructural", some [] => some .unsetStructural
+      | _, _ => none
+    match k, a with
+    | some k, some a =>
+      match KmlExec.applyAction k a with
+      | .ok (.core fs) => "ok:core:" ++ ",".intercalate (fs.map showStr)
+      | .ok .attributes => "ok:attributes"
+      | .ok .facets => "ok:facets"
+      | .ok .structural => "ok:structural"
+      | .error c => "err:" ++ c
+    | _, _ => "bad-op"
   | _ => "bad-op"
 
 end AndaVerif.DrvC16
